@@ -184,6 +184,16 @@ func (e *Enc) oblige(st *State, kind, label string, cond string, pos token.Pos) 
 	if cond == "true" {
 		return
 	}
+	if e.contract != nil && e.contract.Partial && !e.sweepOnly {
+		switch kind {
+		case "nopanic", "pre", "typestate":
+			// partial contract: run-time safety of this function is not
+			// claimed here; the condition is assumed (listed in evidence)
+			st.assume(cond)
+			e.v.useTrusted("partial:" + e.contract.Key + ": run-time safety obligations (" + kind + ") of this function are assumed, not proved")
+			return
+		}
+	}
 	base := fmt.Sprintf("%s#%s[%s]", funcDisplayName(e.top), kind, label)
 	e.oblCount[base]++
 	name := base
@@ -892,6 +902,9 @@ func (e *Enc) instr(fr *frame, st *State, ins ssa.Instruction) {
 		for i, r := range x.Results {
 			vals[i] = fr.val(st, r)
 		}
+		if !fr.inlined && fr.con != nil && len(fr.con.ReturnSites) > 0 && fr.fn == e.top {
+			e.returnSiteChecks(fr, st, vals, x.Pos())
+		}
 		fr.rets = append(fr.rets, retArm{cond: st.reach, st: st, vals: vals, pos: x.Pos()})
 	case *ssa.SliceToArrayPointer:
 		fr.vals[x] = e.freshValue(st, fr.prefix+x.Name(), x.Type())
@@ -1385,4 +1398,25 @@ func freeVarReadOnly(fv *ssa.FreeVar, depth int) bool {
 		}
 	}
 	return true
+}
+
+// returnSiteChecks asserts the contract's returnsite clauses at one return
+// statement: they may mention local variables (as defined at that return) and
+// result0..n / named results.
+func (e *Enc) returnSiteChecks(fr *frame, st *State, vals []Value, pos token.Pos) {
+	con := fr.con
+	for _, c := range con.ReturnSites {
+		env := e.frameEnv(fr, st)
+		e.lenientLocals(fr, st, env)
+		env.results = vals
+		sig := fr.fn.Signature
+		for i := 0; i < sig.Results().Len() && i < len(vals); i++ {
+			if n := sig.Results().At(i).Name(); n != "" && n != "_" {
+				env.vars[n] = vals[i]
+			}
+		}
+		env.where = "returnsite at " + e.pos(pos)
+		e.v.callsiteHits[con.Key+"/"+c.Label]++
+		e.obligeClauseNamed(env, st, "returnsite", c.Label, c, pos)
+	}
 }
